@@ -169,6 +169,10 @@ type HistFamily struct {
 	UndoBud   int
 	RTBud     int
 	VerBud    int // Verify(remember=true) of an arbitrary live leaf set as a transition
+	// NodeVer: the verify budget may also be spent on Verify(remember=true) of a TRUE claim about one internal
+	// node (partial map forests only), and the Stale oracle then also offers every internal node of the
+	// neighbouring state, through Verify and through VerifyPartialProof
+	NodeVer bool
 	MaxDepth  int // 0 = unbounded (space is finite because N never decreases)
 	NoDedup   bool
 	PermLimit int    // all permutations of request order for |S| <= PermLimit
@@ -226,6 +230,11 @@ func (f *HistFamily) Ops(n *Node) []Op {
 	if md.verBud > 0 {
 		for _, set := range subsets(live, false) {
 			ops = append(ops, Op{Kind: "verify", Set: set})
+		}
+		if f.NodeVer {
+			for _, p := range internalNodes(ref.APILayout(md.s)) {
+				ops = append(ops, Op{Kind: "verify", Enc: "node", Set: []int{int(p)}})
+			}
 		}
 	}
 	return ops
@@ -385,6 +394,22 @@ func (f *HistFamily) apply(x *Exec, insts []*inst, md *histModel, op Op) bool {
 		md.hasRT = true
 	case "verify":
 		L := ref.APILayout(md.s)
+		if op.Enc == "node" {
+			// a true claim about one internal node, remembered by the partial map forests
+			hs, proof := nodeClaim(L, uint64(op.Set[0]))
+			for _, in := range insts {
+				if in.broken || in.m == nil || in.cfg.Full {
+					continue
+				}
+				if err := x.VerifyAcc(in.cfg.Name(), in.acc, hs, proof, true); err != nil {
+					x.Report(f.Or.Prop, "honest proof of an internal node rejected by Verify(remember) on "+in.cfg.Class(), fmt.Sprintf("%s: %v", in.cfg.Name(), err))
+					in.broken = true
+					ok = false
+				}
+			}
+			md.verBud--
+			break
+		}
 		proof := L.Proof(op.Set)
 		hs := ref.Hashes(op.Set)
 		for _, in := range insts {
@@ -938,47 +963,111 @@ func describeProbe(kind string, slot int, md *histModel, in *inst) string {
 	return "a tracked live leaf"
 }
 
+// internalNodes returns the positions of L that hold a node which is not a leaf, ascending.
+func internalNodes(L *ref.Layout) []uint64 {
+	var out []uint64
+	for p := range L.At {
+		if _, leaf := L.IsLeaf[p]; leaf {
+			continue
+		}
+		if _, op := L.Opaque[p]; op {
+			continue
+		}
+		if L.At[p] == ref.Zero {
+			continue
+		}
+		out = append(out, p)
+	}
+	sort.Slice(out, func(i, j int) bool { return out[i] < out[j] })
+	return out
+}
+
+// nodeClaim is the true claim "the node at position p has hash At[p]" with its canonical proof.
+func nodeClaim(L *ref.Layout, p uint64) ([]Hash, u.Proof) {
+	pr := u.Proof{Targets: []uint64{p}}
+	for _, q := range L.ProofPositions(pr.Targets) {
+		pr.Proof = append(pr.Proof, L.At[q])
+	}
+	return []Hash{L.At[p]}, pr
+}
+
 // observeStale: see HistOracle.Stale.
 func (f *HistFamily) observeStale(x *Exec, prop string, insts []*inst, md *histModel, L *ref.Layout) int64 {
 	ns := *md.neighbour
 	LN := ref.APILayout(ns)
 	var evals int64
+	type claim struct {
+		hs    []Hash
+		proof u.Proof
+	}
+	var claims []claim
 	for _, set := range subsets(ns.Live(), false) {
-		proof := LN.Proof(set)
-		hs := ref.Hashes(set)
+		claims = append(claims, claim{ref.Hashes(set), LN.Proof(set)})
+	}
+	if f.NodeVer {
+		for _, p := range internalNodes(LN) {
+			hs, pr := nodeClaim(LN, p)
+			claims = append(claims, claim{hs, pr})
+		}
+	}
+	for _, cl := range claims {
+		proof, hs := cl.proof, cl.hs
 		for _, in := range insts {
 			if in.broken {
 				continue
 			}
-			evals++
-			var err error
 			var LT *ref.Layout
-			if in.stump != nil {
-				st := u.Stump{Roots: append([]Hash(nil), in.stump.Roots...), NumLeaves: in.stump.NumLeaves}
-				_, err = x.Verify(st, hs, proof)
-			} else {
-				err = x.VerifyAcc(in.cfg.Name(), in.acc, hs, proof, false)
-				if in.m != nil {
-					if tr := in.m.TotalRows; tr > L.R && tr <= 63 {
-						LT = ref.LayoutOf(md.s, tr)
-					}
+			if in.m != nil {
+				if tr := in.m.TotalRows; tr > L.R && tr <= 63 {
+					LT = ref.LayoutOf(md.s, tr)
 				}
 			}
-			if err != nil {
-				continue
-			}
-			for i, t := range proof.Targets {
-				at, ok := L.At[t]
-				if ok && at == hs[i] {
-					continue
+			judge := func(via string, err error) {
+				evals++
+				if err != nil {
+					return
 				}
-				if LT != nil {
-					if at2, ok2 := LT.At[t]; ok2 && at2 == hs[i] {
+				for i, t := range proof.Targets {
+					at, ok := L.At[t]
+					if ok && at == hs[i] {
 						continue
 					}
+					if LT != nil {
+						if at2, ok2 := LT.At[t]; ok2 && at2 == hs[i] {
+							continue
+						}
+					}
+					x.Report(prop, "false claim accepted by "+in.cfg.Class()+via+" [the claim was true in the neighbouring state of the history]", fmt.Sprintf("%s in state %s: claim hash %x at position %d (targets %v); it held in state %s", in.cfg.Name(), md.s.Key(), hs[i][:4], t, proof.Targets, ns.Key()))
+					break
 				}
-				x.Report(prop, "false claim accepted by "+in.cfg.Class()+" [the claim was true in the neighbouring state of the history]", fmt.Sprintf("%s in state %s: claim hash %x at position %d (targets %v); it held in state %s", in.cfg.Name(), md.s.Key(), hs[i][:4], t, proof.Targets, ns.Key()))
-				break
+			}
+			if in.stump != nil {
+				st := u.Stump{Roots: append([]Hash(nil), in.stump.Roots...), NumLeaves: in.stump.NumLeaves}
+				_, err := x.Verify(st, hs, proof)
+				judge("", err)
+				continue
+			}
+			judge("", x.VerifyAcc(in.cfg.Name(), in.acc, hs, proof, false))
+			if f.NodeVer && in.m != nil {
+				// the same claim through VerifyPartialProof: with the neighbouring state's proof hashes, and with the
+				// current state's hashes at the positions the forest reports as missing
+				m := in.m
+				judge(" (VerifyPartialProof)", safe(func() error { return m.VerifyPartialProof(proof.Targets, hs, proof.Proof, false) }))
+				var miss []uint64
+				if safe(func() error { miss = m.GetMissingPositions(proof.Targets); return nil }) == nil {
+					cur := make([]Hash, 0, len(miss))
+					for _, q := range miss {
+						h, ok := L.At[q]
+						if !ok && LT != nil {
+							h, ok = LT.At[q]
+						}
+						if !ok {
+							h = ref.FreshHash(5)
+						}
+						cur = append(cur, h)
+					}
+					judge(" (VerifyPartialProof)", safe(func() error { return m.VerifyPartialProof(proof.Targets, hs, cur, false) }))
+				}
 			}
 		}
 	}
